@@ -671,27 +671,27 @@ pub fn run(w: Which, r: &Runner) {
             phase_start_sweep(w, r);
             phase_targets(r, if r.quick() { 70 } else { 100 });
             phase_start_tokens(w, r, if r.quick() { 5 } else { 6 });
-            phase_g1(w, r, r.amount(600_000, 20_000_000), &REQ_KINDS, Profile::DEFAULT, 0x7f, true);
+            phase_g1(w, r, r.amount(5_000_000, 80_000_000), &REQ_KINDS, Profile::DEFAULT, 0x7f, true);
         }
         Which::C07 => {
             phase_start_sweep(w, r);
             phase_codes_reasons(r);
             phase_start_tokens(w, r, if r.quick() { 5 } else { 6 });
-            phase_g1(w, r, r.amount(600_000, 20_000_000), &RESP_KINDS, Profile::DEFAULT, 0x7f, true);
+            phase_g1(w, r, r.amount(5_000_000, 80_000_000), &RESP_KINDS, Profile::DEFAULT, 0x7f, true);
         }
         Which::C08 => {
             let combos = default_combos();
             phase_hdr_sweep(w, r, &combos);
             phase_hdr_lanes(w, r, if r.quick() { 70 } else { 100 }, &combos);
-            phase_hdr_exhaustive(w, r, if r.quick() { 5 } else { 7 }, &combos,
+            phase_hdr_exhaustive(w, r, if r.quick() { 6 } else { 7 }, &combos,
                 "header strings over the 11-symbol alphabet × 8 resume contexts × 3 entry kinds (default config)");
             // default configuration only: mask all option bits
-            phase_g1(w, r, r.amount(600_000, 20_000_000), &MSG_KINDS, Profile::DEFAULT, 0, true);
+            phase_g1(w, r, r.amount(5_000_000, 80_000_000), &MSG_KINDS, Profile::DEFAULT, 0, true);
         }
         Which::C09 => {
             phase_chunk_digits(r);
             phase_chunk_exhaustive(r, if r.quick() { 6 } else { 7 });
-            phase_g1(w, r, r.amount(400_000, 5_000_000), &CHUNK_KINDS, Profile::DEFAULT, 0, true);
+            phase_g1(w, r, r.amount(2_000_000, 30_000_000), &CHUNK_KINDS, Profile::DEFAULT, 0, true);
         }
         Which::C10 => {
             phase_too_many(r, w);
@@ -700,11 +700,11 @@ pub fn run(w: Which, r: &Runner) {
             c10_resp_sweep(r);
             let combos = c14_combos();
             phase_hdr_sweep(w, r, &combos[..if r.quick() { 8 } else { 32 }]);
-            phase_hdr_exhaustive(w, r, if r.quick() { 4 } else { 6 }, &combos,
+            phase_hdr_exhaustive(w, r, if r.quick() { 5 } else { 6 }, &combos,
                 "header strings (11-symbol alphabet) × 8 contexts × 32 option/kind combos, rejected ones judged");
             phase_start_tokens_kind(r, Kind::Request, if r.quick() { 4 } else { 5 });
             phase_start_tokens_kind(r, Kind::Response, if r.quick() { 4 } else { 5 });
-            phase_g1(w, r, r.amount(800_000, 30_000_000), &MSG_KINDS, Profile::DEFAULT, 0x7f, false);
+            phase_g1(w, r, r.amount(5_000_000, 80_000_000), &MSG_KINDS, Profile::DEFAULT, 0x7f, false);
         }
         Which::C14 => {
             let combos = c14_combos();
@@ -712,12 +712,12 @@ pub fn run(w: Which, r: &Runner) {
             phase_hdr_lanes(w, r, if r.quick() { 40 } else { 100 }, &combos);
             phase_hdr_exhaustive(w, r, if r.quick() { 5 } else { 6 }, &combos,
                 "header strings (11-symbol alphabet) × 8 contexts × 16 option combos × {request,response}");
-            phase_g1(w, r, r.amount(600_000, 20_000_000), &RR_KINDS, Profile::LENIENT, 0x7f, false);
+            phase_g1(w, r, r.amount(4_000_000, 80_000_000), &RR_KINDS, Profile::LENIENT, 0x7f, false);
             // last sentence of C14: kept headers identical to the strict parse
             let g = GenSpec { kinds: &RR_KINDS, profile: Profile::CLEAN, generous_cap: true, cfg_mask: 0x7f, cfg_entry_only: true };
             r.par_random(
                 "kept headers reported identically with and without the options (strict-valid blocks)",
-                r.amount(300_000, 8_000_000),
+                r.amount(2_000_000, 30_000_000),
                 160,
                 |u: &mut Choice| g1_case(u, "c14-kept-identical", &g),
                 &|ctx, l, rec| check(w, r, ctx, l, rec),
